@@ -167,6 +167,48 @@ def _world_collective_funcs(prog) -> dict:
     return reach
 
 
+def _same_collectives_on_both_sides(prog, fi, test: ast.AST, coll_funcs) -> bool:
+    """the ranks on which a rank test holds and the ranks on which it does not run through the same sequence of world
+    collectives until the function ends (symbolic paths grouped by the polarity of the test): early-return forms of
+    `value = … if on_root() else None; return bcast(value)`"""
+    from .. import symx
+
+    ttxt = unparse(test)
+    neg = unparse(test.operand) if isinstance(test, ast.UnaryOp) and isinstance(test.op, ast.Not) else None
+    try:
+        paths = symx.explore(prog, fi, skip_tests=("logger",), inline=lambda *a_: False)
+    except symx.TooManyPaths:
+        return False
+    seqs = {True: set(), False: set()}
+    for p in paths:
+        if p.outcome == "raise":
+            continue
+        pol = None
+        for t, pl in p.literals():
+            tt = unparse(t)
+            if tt == ttxt:
+                pol = pl
+            elif neg is not None and tt == neg:
+                pol = not pl
+        if pol is None:
+            continue
+        ops = []
+        for ev in p.calls():
+            f_ = ev.expr.func
+            if isinstance(f_, ast.Attribute) and f_.attr in MPI_COLLECTIVES and is_mpi_receiver(prog, ev.fi, ev.node.func.value if isinstance(ev.node.func, ast.Attribute) else f_.value):
+                root = kwarg(ev.expr, "root")
+                ops.append((f_.attr, unparse(root) if root is not None else ""))
+            else:
+                try:
+                    tg = prog.resolve_call(ev.fi, ev.node)
+                except Exception:  # noqa: BLE001
+                    continue
+                if tg.precise and any(t_ in coll_funcs for t_ in tg.funcs()):
+                    ops.append(("call:" + tg.funcs()[0].name, ""))
+        seqs[pol].add(tuple(ops))
+    return bool(seqs[True]) and seqs[True] == seqs[False] and all(s_ for s_ in seqs[True])
+
+
 def rule_r1(prog, res) -> None:
     """collective alignment"""
     n = 0
@@ -195,6 +237,8 @@ def rule_r1(prog, res) -> None:
                     st = d.test.ast
                     if isinstance(st, ast.If) and _collectives_in(prog, st.body, fi) == _collectives_in(prog, st.orelse, fi) and _collectives_in(prog, st.body, fi):
                         continue
+                    if _same_collectives_on_both_sides(prog, fi, d.test.expr, coll_funcs):
+                        continue  # e.g. `if not on_root(): return bcast(None)` followed by `return bcast(value)`
                     bad = d
             # generator functions: a collective after a yield-loop is reached only on exhaustion (R4)
             if bad is not None:
@@ -944,10 +988,26 @@ def rule_r8(prog, res) -> None:
         first = init.param_names()[1]
         attrs = {t.attr for x in walk_no_nested(init.node) if isinstance(x, ast.Assign) and isinstance(x.value, ast.Name) and x.value.id == first for t in x.targets if isinstance(t, ast.Attribute)}
         res.touch(it)
+        def hands_through(ev, oracle, depth=0) -> bool:
+            """a yield that delivers the items of the wrapped iterator: directly, or by delegating to a generator
+            method of the class that does so on every path"""
+            if ev.kind != "yield" or ev.expr is None:
+                return False
+            if symx.mentions(ev.expr, lambda y: isinstance(y, ast.Attribute) and y.attr in attrs):
+                return True
+            e = symx.strip_wrappers(ev.expr)
+            if isinstance(e, ast.Call) and isinstance(e.func, ast.Attribute) and isinstance(e.func.value, ast.Name) and e.func.value.id == "self" and depth < 2:
+                g_ = ci.methods.get(e.func.attr)
+                if g_ is not None and any(isinstance(y, (ast.Yield, ast.YieldFrom)) for y in walk_no_nested(g_.node)):
+                    gp = [p for p in symx.explore(prog, g_, oracle=oracle, inline=symx.inline_private_helpers(prog)) if p.outcome != "raise"]
+                    return bool(gp) and all(any(hands_through(e2, oracle, depth + 1) for e2 in p.events) for p in gp)
+            return False
+
         for designated in (True, False):
             n += 1
-            paths = [p for p in symx.explore(prog, it, oracle=_designated_rank_oracle(designated), inline=symx.inline_private_helpers(prog)) if p.outcome != "raise"]
-            silent = [p for p in paths if not any(ev.kind == "yield" and ev.expr is not None and symx.mentions(ev.expr, lambda y: isinstance(y, ast.Attribute) and y.attr in attrs) for ev in p.events)]
+            orc = _designated_rank_oracle(designated)
+            paths = [p for p in symx.explore(prog, it, oracle=orc, inline=symx.inline_private_helpers(prog)) if p.outcome != "raise"]
+            silent = [p for p in paths if not any(hands_through(ev, orc) for ev in p.events)]
             who = "the root rank" if designated else "the other ranks"
             if silent or not paths:
                 res.violation(
